@@ -237,7 +237,13 @@ func exec(t *thread, c cmd) kjob.Event {
 	st := c.step
 	switch st.Op {
 	case "load":
-		return doLoad(st, c.index)
+		ev := doLoad(st, c.index)
+		if t == nil {
+			// a load from an ordinary goroutine: which thread it ended on is only known now (later steps may even end
+			// that thread), so the state of all threads is recorded with the event
+			ev.Status = allStatus()
+		}
+		return ev
 	case "nested-load":
 		hookMu.Lock()
 		nestedInner, nestedTid, nestedIndex = st.Inner, gettid(), c.index
